@@ -63,16 +63,16 @@ func Bool(b bool) W {
 	}
 	return W{T: TBool}
 }
-func I8(v int8) W                 { return W{T: TI8, I: int64(v)} }
-func I16(v int16) W               { return W{T: TI16, I: int64(v)} }
-func I32(v int32) W               { return W{T: TI32, I: int64(v)} }
-func I64(v int64) W               { return W{T: TI64, I: v} }
-func Double(bits uint64) W        { return W{T: TDouble, F: bits} }
-func Binary(b []byte) W           { return W{T: TBinary, B: b} }
-func Struct(fs ...Field) W        { return W{T: TStruct, Fields: fs} }
-func List(et byte, items ...W) W  { return W{T: TList, VT: et, Items: items} }
-func Set(et byte, items ...W) W   { return W{T: TSet, VT: et, Items: items} }
-func Map(kt, vt byte, kv ...W) W  { return W{T: TMap, KT: kt, VT: vt, Items: kv} }
+func I8(v int8) W                { return W{T: TI8, I: int64(v)} }
+func I16(v int16) W              { return W{T: TI16, I: int64(v)} }
+func I32(v int32) W              { return W{T: TI32, I: int64(v)} }
+func I64(v int64) W              { return W{T: TI64, I: v} }
+func Double(bits uint64) W       { return W{T: TDouble, F: bits} }
+func Binary(b []byte) W          { return W{T: TBinary, B: b} }
+func Struct(fs ...Field) W       { return W{T: TStruct, Fields: fs} }
+func List(et byte, items ...W) W { return W{T: TList, VT: et, Items: items} }
+func Set(et byte, items ...W) W  { return W{T: TSet, VT: et, Items: items} }
+func Map(kt, vt byte, kv ...W) W { return W{T: TMap, KT: kt, VT: vt, Items: kv} }
 func (w W) Count() int {
 	if w.T == TMap {
 		return len(w.Items) / 2
@@ -148,6 +148,8 @@ type decoder struct {
 	off int
 	// Lenient mode: stats only
 	oversize bool
+	sites    []int
+	record   bool
 }
 
 func (d *decoder) need(n int) error {
@@ -302,6 +304,9 @@ func (d *decoder) value(t byte, depth int) (W, error) {
 func (d *decoder) length() (int, error) {
 	if err := d.need(4); err != nil {
 		return 0, err
+	}
+	if d.record {
+		d.sites = append(d.sites, d.off)
 	}
 	n := int32(binary.BigEndian.Uint32(d.b[d.off:]))
 	d.off += 4
@@ -539,4 +544,12 @@ func DecodeMessage(b []byte) (string, Envelope, int, error) {
 func Frame(p []byte) []byte {
 	out := binary.BigEndian.AppendUint32(nil, uint32(len(p)))
 	return append(out, p...)
+}
+
+// LengthSites returns the offsets of every 4-byte length or count field of the
+// value of type t that starts at offset start of a valid encoding.
+func LengthSites(b []byte, t byte, start int) []int {
+	d := decoder{b: b, off: start, record: true}
+	d.value(t, 0)
+	return d.sites
 }
